@@ -207,14 +207,14 @@ func GetNode(children []*Node, path string) (*Node, bool) {
 	// which is not the order of plain names, so look at every child
 	for _, node := range children {
 		if node.Name == searchName {
-			if len(node.Children) == 0 {
-				return node, true
-			}
 			if len(pathSplit) > 1 {
+				// the path names something beneath this name, so a file of this name is not on the path
+				if len(node.Children) == 0 {
+					continue
+				}
 				return GetNode(node.Children, pathSplit[1])
-			} else {
-				return node, true
 			}
+			return node, true
 		}
 	}
 
